@@ -1,17 +1,23 @@
 BOUNDS = ('1-D: correlate_rows/cols, convolve_rows/cols and their _fixed variants (8 functions) x the 5 boundary options; image size, kernel size, centre concrete per query: '
           'length along the filtered axis 0..4 (thorough 0..6), other dimension 0..2, kernel size 1..3 (thorough 1..5; fixed kernels 1,3,5), every centre position; '
           'every source pixel (8-bit gray; also rgb8 per channel, 16-bit gray) and every declared padding pixel symbolic, taps symbolic integers in [-4,4], int32 accumulator / destination pixels '
-          '(exact sums), destination pre-filled with a symbolic sentinel; EVERY output pixel of the image is compared with the textbook sum in one query (concrete loop; '
-          'some shapes additionally one output pixel per query); float32 accumulators with integer-valued taps (exact in float32).  '
+          '(exact sums), destination pre-filled with a symbolic sentinel; EVERY output pixel of the image is compared with the textbook sum in one query (concrete loop; measured 3-40 s with kissat; '
+          'the probe shape additionally one output pixel per query).  float32 accumulators with integer-valued taps: kernel size 1, and sums with at most two non-zero taps.  '
           'convolve == correlate with the harness-reversed kernel and cols == rows on a materialised transposed copy: every output pixel.  '
-          'convolve_2d: gray8 (thorough rgb8) -> float32, w,h <= 3, square kernel 1..3, every centre, float taps integer-valued in [-4,4], every output pixel.  '
-          'extend_row/col/boundary: w,h in 1..3 (extend_zero also empty), extend count 1..2, extend_zero / extend_constant / extend_padded, every result pixel.  '
-          'All sources / destinations are exact-size heap objects (extend_padded: plus exactly the declared padding).')
-OUTSIDE = ('sizes above the bounds; kernel taps outside [-4,4] and non-integer float taps (rounding-error tolerances); accumulator overflow / saturation for narrow accumulator types; '
-           'destination pixel types narrower than the accumulator (the implicit narrowing conversion); extend_constant on an empty image (no nearest pixel exists); '
-           'output_ignore / output_zero as arguments of extend_* (rejected by BOOST_ASSERT only); overlapping source and destination; convolve_1d (in-place second pass)')
+          'convolve_2d (gray8, thorough rgb8 -> float32 destination, float taps integer-valued in [-4,4], w,h <= 3): kernel size 1 and 1x1 / empty images with every tap symbolic; size 2 and 3 with impulse kernels '
+          '(one symbolic tap at every tap position, the others 0; every output pixel) and two-tap kernels (one output pixel per query) against the exact integer sum; '
+          'size 3 with every tap symbolic against the float32 sum in the same accumulation order (thorough).  '
+          'extend_row/col/boundary: w,h in 1..3 (extend_zero also empty sources), extend count 1..2, extend_zero / extend_constant / extend_padded, gray8 / rgb8 / gray16, every result pixel.  '
+          'All sources / destinations are exact-size heap objects (extend_padded: plus exactly the declared padding); an empty source is the one-past-the-end pointer of a minimal object.')
+OUTSIDE = ('sizes above the bounds; kernel taps outside [-4,4] and non-integer float taps (rounding-error tolerances); float accumulation of three or more non-zero terms against the exact integer sum '
+           '(1-D float accumulators and convolve_2d with a full 2x2 / 3x3 kernel: no verdict in 300 s on kissat / cadical, so linearity in the taps is checked tap by tap and pairwise only); '
+           'accumulator overflow / saturation for narrow accumulator types; destination pixel types narrower than the accumulator (the implicit narrowing conversion); '
+           'kernel_2d\'s iterator constructor (derives the size with a libm sqrt call: the harness uses kernel_2d(size, cy, cx) + element copy); extend_constant on an empty image (no nearest pixel exists); '
+           'output_ignore / output_zero as arguments of extend_* (rejected by BOOST_ASSERT only); overlapping source and destination; convolve_1d (in-place second pass); debug builds '
+           '(harnesses are compiled with NDEBUG: rotated90cw_view of an empty view, used by extend_col, trips BOOST_ASSERT in xy_at)')
 ASSUMPTIONS = ['kernel taps are integers in [-4,4]', 'extend_padded: the caller supplies exactly left_size()/right_size() (extend_*: extend_count) valid pixels around the source view',
-               'source and destination views do not overlap', 'kernel_2d layout is at(x,y) = begin()[y*size+x]']
+               'source and destination views do not overlap', 'kernel_2d layout is at(x,y) = begin()[y*size+x]',
+               'a padded image without pixels only has to be empty (gil::image(w,0) reports 0x0); a padded image with pixels must have the exact dimensions']
 OPTS = dict(ignore=0, zero=1, padded=2, ext_zero=3, constant=4)
 PIX = dict(g8=('gil::gray8_pixel_t', 'gil::gray32s_pixel_t', 'int'), rgb8=('gil::rgb8_pixel_t', 'gil::rgb32s_pixel_t', 'int'), g16=('gil::gray16_pixel_t', 'gil::gray32s_pixel_t', 'int'),
            g8f=('gil::gray8_pixel_t', 'gil::gray32f_pixel_t', 'float'))
@@ -36,10 +42,10 @@ def conv2d(pix, kt, w, h, K, cx, cy, tier, at=None, mask=-1, mode=0, to=300):
     # convolve_2d_impl's innermost loop: the checker counts its iterations over the whole call
     return Q(name, 'C15/conv2d.cpp', 'h_conv2d', defs=dict(C15_SRC_PIX=sp, C15_DST_PIX=dp, C15_KER_T=kt), params=[w, h, K, cx, cy, ox, oy, mask, mode],
              unwind=max(w * h * K * K * (3 if pix == 'rgb8' else 1) + 3, 27), rt_unwind=40, tier=tier, timeout=to, solvers=KS)
-def extend(pix, fn, w, h, n, opt, tier, to=300):
+def extend(pix, fn, w, h, n, opt, tier, to=300, note=None):
     sp = dict(g8='gil::gray8_pixel_t', rgb8='gil::rgb8_pixel_t', g16='gil::gray16_pixel_t')[pix]
     name = 'extend/%s/%s/%s/%dx%d_n%d' % (('row', 'col', 'boundary')[fn], pix, opt, w, h, n)
-    return Q(name, 'C15/extend.cpp', 'h_extend', defs=dict(C15_SRC_PIX=sp), params=[w, h, n, OPTS[opt], fn], unwind=max((w + 2 * n) * (h + 2 * n) * (3 if pix == 'rgb8' else 1) + 3, 8), rt_unwind=40, tier=tier, timeout=to, solvers=KS)
+    return Q(name, 'C15/extend.cpp', 'h_extend', defs=dict(C15_SRC_PIX=sp), params=[w, h, n, OPTS[opt], fn], unwind=max((w + 2 * n) * (h + 2 * n) * (3 if pix == 'rgb8' else 1) + 3, 8), rt_unwind=40, tier=tier, timeout=to, solvers=KS, note=note)
 def centres(K): return list(range(K))
 def queries(tier, seed):
     qs = []; Q_ = 'quick'; T_ = 'thorough'
@@ -129,8 +135,10 @@ def queries(tier, seed):
             qs.append(extend('g16', fn, 3, 3, 2, opt, T_))
             qs.append(extend('g8', fn, 1, 1, 1, opt, T_))
         qs.append(extend('g8', fn, 0, 2, 1, 'ext_zero', Q_ if fn != 1 else T_))
-        qs.append(extend('g8', fn, 2, 0, 1, 'ext_zero', Q_ if fn == 1 else T_))
-        qs.append(extend('g8', fn, 0, 0, 2, 'ext_zero', T_))
+        # extend_boundary of a source without rows: the intermediate extend_col image (w+2n) x 0 is reported as 0x0 by gil::image, the result is 0x0 instead of (w+2n) x 2n zeros
+        FND = 'fails on the unchanged tree: gil::image(w,0) drops the width (see report / known_findings)' if fn == 2 else None
+        qs.append(extend('g8', fn, 2, 0, 1, 'ext_zero', Q_ if fn == 1 else T_, note=FND))
+        qs.append(extend('g8', fn, 0, 0, 2, 'ext_zero', T_, note=FND))
     names = set(); out = []
     for q in qs:
         if q.name in names: continue
